@@ -53,6 +53,8 @@ type vTransport struct {
 	// slowReadRelease: a Read blocked at the end of the input returns only this long after Close
 	slowReadRelease time.Duration
 	closeErr    error // returned by Close
+	// slowClose: Close takes this long (a TLS close_notify to a peer that has stopped reading, a slow kernel)
+	slowClose time.Duration
 	// endTogether: the Read that delivers the last input bytes also reports the end (n > 0 together with the error),
 	// as io.Reader allows and crypto/tls does on close_notify
 	endTogether bool
@@ -241,6 +243,9 @@ func (t *vTransport) Close() error {
 	if !t.isClosed {
 		t.isClosed = true
 		close(t.closed)
+	}
+	if t.slowClose > 0 {
+		time.Sleep(t.slowClose)
 	}
 	return t.closeErr
 }
